@@ -80,6 +80,8 @@ def _st_biased_spec(draw: st.DrawFn, base: st.SearchStrategy[dict]) -> dict:
     if w >= 4:
         return draw(base)
     spec: dict = draw(zoo.st_leaf_spec(kinds=["json"]))
+    if draw(st.integers(0, 2)) == 0:
+        spec = zoo.with_debug(spec)  # debug=True fills error_info from the decoder's exception: another code path per error type
     if w == 3:
         outer = draw(st.sampled_from(["base64", "zlib", "bz2", "stapled"]))
         if outer == "base64":
@@ -483,6 +485,134 @@ def run_atheris(case: dict) -> Outcome:
 
 # ----------------------------------------------------------------------------------------------
 
+# ----------------------------------------------------------------------------------------------
+# layer "pickle-reduce": structurally valid pickles whose *reconstruction* fails inside an (allow-listed, harmless)
+# callable — decimal.Decimal("12,50"), fractions.Fraction(1, 0), complex("x"), datetime.date(2023, 13, 40), ... —
+# must still surface as a parse error.  Only an allow-list unpickler is used: generated bytes never reach arbitrary globals.
+
+_PICKLE_ALLOWED = {
+    ("decimal", "Decimal"),
+    ("fractions", "Fraction"),
+    ("builtins", "complex"),
+    ("builtins", "int"),
+    ("builtins", "float"),
+    ("builtins", "bytes"),
+    ("builtins", "range"),
+    ("datetime", "date"),
+    ("datetime", "timedelta"),
+    ("collections", "OrderedDict"),
+    ("ipaddress", "IPv4Address"),
+    ("uuid", "UUID"),
+}
+
+
+class _AllowListUnpickler:
+    def __new__(cls, file, **kwargs):  # noqa: ANN001
+        import importlib
+        import pickle
+
+        class _U(pickle.Unpickler):
+            def find_class(self, module, name):  # noqa: ANN001
+                if (module, name) not in _PICKLE_ALLOWED:
+                    raise pickle.UnpicklingError(f"global {module}.{name} is forbidden")
+                return getattr(importlib.import_module(module), name)
+
+        return _U(file, **kwargs)
+
+
+class _Reduce:
+    def __init__(self, module: str, name: str, args: tuple) -> None:
+        self.target = (module, name)
+        self.args = args
+
+    def __reduce__(self):  # type: ignore[no-untyped-def]
+        import importlib
+
+        return getattr(importlib.import_module(self.target[0]), self.target[1]), self.args
+
+
+_REDUCE_ARGS = st.one_of(
+    st.tuples(st.text(st.sampled_from("0123456789,.-+eE xXNaInf/"), max_size=8)),
+    st.tuples(st.integers(-3, 3), st.integers(-3, 3)),
+    st.tuples(st.integers(-(10**6), 10**6), st.integers(-40, 40), st.integers(-40, 40)),
+    st.tuples(st.floats(allow_nan=True, allow_infinity=True)),
+    st.tuples(st.binary(max_size=6)),
+    st.just(()),
+    st.tuples(st.none()),
+)
+
+
+@st.composite
+def st_pickle_reduce_case(draw: st.DrawFn, tier: str) -> dict:
+    module, name = draw(st.sampled_from(sorted(_PICKLE_ALLOWED)))
+    return {
+        "module": module,
+        "name": name,
+        "args": draw(_REDUCE_ARGS),
+        "protocol": draw(st.sampled_from([0, 2, 4, 5])),
+        "wrap": draw(st.sampled_from(["none", "none", "base64", "zlib"])),
+        "mode": draw(st.sampled_from(["oneshot", "datagram", "stream"])),
+    }
+
+
+def run_pickle_reduce(case: dict) -> Outcome:
+    import pickle
+
+    from easynetwork.exceptions import DatagramProtocolParseError, DeserializeError, StreamProtocolParseError
+    from easynetwork.lowlevel._stream import StreamDataConsumer
+    from easynetwork.protocol import DatagramProtocol, StreamProtocol
+    from easynetwork.serializers.pickle import PicklerConfig, PickleSerializer
+    from easynetwork.serializers.wrapper.base64 import Base64EncoderSerializer
+    from easynetwork.serializers.wrapper.compressor import ZlibCompressorSerializer
+
+    payload = pickle.dumps(_Reduce(case["module"], case["name"], tuple(case["args"])), protocol=case["protocol"])
+    ser: Any = PickleSerializer(PicklerConfig(protocol=case["protocol"]), unpickler_cls=_AllowListUnpickler)  # type: ignore[arg-type]
+    data = payload
+    if case["wrap"] == "base64":
+        import base64
+
+        ser = Base64EncoderSerializer(ser)
+        data = base64.urlsafe_b64encode(payload)
+    elif case["wrap"] == "zlib":
+        import zlib
+
+        ser = ZlibCompressorSerializer(ser)
+        data = zlib.compress(payload)
+    outcome = "packet"
+    try:
+        if case["mode"] == "oneshot":
+            try:
+                ser.deserialize(data)
+            except DeserializeError:
+                outcome = "parse-error"
+        elif case["mode"] == "datagram":
+            try:
+                DatagramProtocol(ser).build_packet_from_datagram(data)
+            except DatagramProtocolParseError:
+                outcome = "parse-error"
+        else:
+            if case["wrap"] == "none":
+                return Outcome(classes=("pickle-reduce", "stream-needs-wrapper"))
+            consumer = StreamDataConsumer(StreamProtocol(ser))
+            frame = data + (b"\r\n" if case["wrap"] == "base64" else b"")
+            try:
+                consumer.next(frame)
+            except StreamProtocolParseError:
+                outcome = "parse-error"
+            except StopIteration:
+                outcome = "incomplete"
+    except Exception as exc:  # noqa: BLE001
+        root = exc.__cause__ if isinstance(exc, RuntimeError) and exc.__cause__ is not None else exc
+        raise Violation(
+            "escaped-exception",
+            f"pickle of {case['module']}.{case['name']}{tuple(case['args'])!r} ({case['mode']}, wrap={case['wrap']}): {type(root).__name__}: {root} escaped "
+            f"(surfaced as {type(exc).__name__})",
+            exc_type=type(root).__name__,
+            leafs=["pickle"],
+        ) from exc
+    return Outcome(nontrivial=outcome == "parse-error", classes=("pickle-reduce", f"end-{outcome}", f"wrap-{case['wrap']}"))
+
+
 CHECK = Check(
     id="C06",
     level="exploration",
@@ -498,12 +628,14 @@ CHECK = Check(
     layers=[
         Layer("oneshot", st_oneshot_case, run_oneshot, {"quick": 700, "thorough": 4000}, hang_is_violation=True, case_timeout_s=30),
         Layer("stream", st_stream_case, run_stream, {"quick": 1100, "thorough": 5000}, hang_is_violation=True, case_timeout_s=30),
+        Layer("pickle-reduce", st_pickle_reduce_case, run_pickle_reduce, {"quick": 400, "thorough": 3000}),
         # one case = one bounded libFuzzer run in a subprocess (same oracle in-target); a fuzzer finding is re-run through the
         # direct layers and reported with a direct replay file.  Skipped (and recorded as a class) if atheris is not importable.
         Layer("atheris", st_atheris_case, run_atheris, {"quick": 0, "thorough": 2}, case_timeout_s=1700),
     ],
     assumptions=[
         "Pickle is fuzzed only through a restricted unpickler (find_class refused); generated bytes never reach an unrestricted one",
+        "pickle-reduce layer: structurally valid pickles built by the harness (callable from a fixed allow-list of harmless stdlib constructors x generated arguments), loaded through an allow-list unpickler",
         "pickle inputs whose PUT/BINPUT/LONG_BINPUT memo index exceeds 100000 are excluded (class excluded-pickle-memo-index-capped): CPython's "
         "C unpickler resizes its memo array to 2*index entries (5 bytes of input -> up to 32 GiB), a resource bomb of the stdlib covered by the "
         "documented pickle security caveat; Pickle nested inside base64/compressor wrappers therefore runs on the pure-Python restricted unpickler",
